@@ -8,6 +8,7 @@ import Mistletoe.Model.Document
 import Mistletoe.Model.Html
 import Mistletoe.Proofs.Span
 import Mistletoe.Proofs.Inert
+import Mistletoe.Proofs.Lines
 namespace Mistletoe.InertInline
 open Mistletoe Mistletoe.Py Mistletoe.Scan Mistletoe.InlineScan Mistletoe.Core Mistletoe.Inline
 
@@ -577,7 +578,7 @@ theorem findCoreTokens_inert (s : Str) (fn : Footnotes.Table) (hok : ∀ c ∈ s
   unfold findCoreTokens
   simp only [List.length_nil] at e
   rw [e]
-  simp only
+  simp only [inv.esc, Bool.not_false, if_true]
   have hds : ∀ d ∈ (if st.inRun.isSome then pushDelim st (mkDelim st.start s.length s) else st).ds,
       (d.emph && d.closes) = false := by
     cases hr : st.inRun with
@@ -1657,5 +1658,55 @@ theorem tokenizeInner_inert_all (types : List STok) (fn : Footnotes.Table) (s : 
   rw [tokenizeInner_no_candidates types fn s (findAll_inert_all s types fn h hd hw) hne]
   simp only [inertText, Bool.and_eq_true] at h
   rw [unescape_inert s (inertBody_parts s h.1).2.1]
+
+/-! ## `Document(text)` for a `str` made of "\n"-terminated lines -/
+
+/-- a line as `str.splitlines(keepends=True)` returns it: ends in "\n", no other line boundary character -/
+def oneLine (l : Str) : Bool := l.getLast? == some '\n' && l.dropLast.all (fun c => !isLineSep c)
+
+open Mistletoe.Lines in
+theorem splitlinesAux_cons (c : Char) (rest acc : Str) (h : c ≠ '\r') :
+    splitlinesAux (c :: rest) acc =
+      if isLineSep c then (c :: acc).reverse :: splitlinesAux rest [] else splitlinesAux rest (c :: acc) := by
+  conv => lhs; rw [splitlinesAux.eq_def]
+  simp [h]
+
+open Mistletoe.Lines in
+theorem splitlines_line (more : Str) : ∀ (body acc : Str), (∀ c ∈ body, isLineSep c = false) →
+    splitlinesAux (body ++ '\n' :: more) acc = (acc.reverse ++ body ++ ['\n']) :: splitlinesAux more []
+  | [], acc, _ => by
+    have h2 : isLineSep '\n' = true := by decide
+    rw [List.nil_append, splitlinesAux_cons _ _ _ (by decide), h2]
+    simp
+  | c :: body, acc, h => by
+    have hc := h c (by simp)
+    have h1 : c ≠ '\r' := by intro e; subst e; revert hc; decide
+    rw [List.cons_append, splitlinesAux_cons _ _ _ h1, hc]
+    simp only [Bool.false_eq_true, if_false]
+    rw [splitlines_line more body (c :: acc) (fun x hx => h x (List.mem_cons_of_mem _ hx))]
+    simp
+
+open Mistletoe.Lines in
+/-- **`Document.__init__` on such a text recovers exactly the lines** -/
+theorem normalize_lines : ∀ (ls : List Str), (∀ l ∈ ls, oneLine l = true) → normalize (.str ls.flatten) = ls
+  | [], _ => by simp [normalize, pySplitlines, splitlinesAux]
+  | l :: rest, h => by
+    have ih := normalize_lines rest (fun x hx => h x (List.mem_cons_of_mem _ hx))
+    have hl := h l (by simp)
+    simp only [oneLine, Bool.and_eq_true, beq_iff_eq, List.all_eq_true, Bool.not_eq_eq_eq_not, Bool.not_true] at hl
+    obtain ⟨body, rfl⟩ := List.getLast?_eq_some_iff.mp hl.1
+    have hb : ∀ c ∈ body, isLineSep c = false := by simpa using hl.2
+    simp only [normalize, pySplitlines] at ih ⊢
+    rw [List.flatten_cons, List.append_assoc, List.singleton_append, splitlines_line _ _ [] hb]
+    simp only [List.reverse_nil, List.nil_append, List.map_cons, ih]
+    have : complete (body ++ ['\n']) = body ++ ['\n'] := by
+      unfold complete
+      rw [endsWithNl_snoc]; rfl
+    rw [this]
+
+theorem parse_lines (cfg : Document.Cfg) (gas : Nat) (ls : List Str) (h : ∀ l ∈ ls, oneLine l = true) :
+    Document.parse cfg gas ls.flatten = Document.parseLines cfg gas ls := by
+  unfold Document.parse
+  rw [normalize_lines ls h]
 
 end Mistletoe.InertInline
